@@ -22,6 +22,57 @@ pub fn parser(
         })
 }
 
+/// A tuple `(a, b, ..)` or a parenthesised block `(a)` / `(a b ..)`.
+///
+/// Both start with `(` followed by an expression. Parsing that expression once and then
+/// deciding on what follows it (a comma, or the rest of a sequence) keeps the parser linear in
+/// the nesting depth; trying the tuple first and the block second parsed the inner expression
+/// twice at every level of nesting.
+pub fn or_block<'a>(
+    sequence: Recursive<'a, Token, UntypedExpr, ParseError>,
+    expression: Recursive<'a, Token, UntypedExpr, ParseError>,
+) -> impl Parser<Token, UntypedExpr, Error = ParseError> + 'a {
+    enum Rest {
+        Tuple(Vec<UntypedExpr>),
+        Sequence(Vec<UntypedExpr>),
+    }
+
+    choice((just(Token::LeftParen), just(Token::NewLineLeftParen)))
+        .ignore_then(expression.clone())
+        .then(choice((
+            just(Token::Comma)
+                .ignore_then(
+                    expression
+                        .separated_by(just(Token::Comma))
+                        .at_least(1)
+                        .allow_trailing(),
+                )
+                .map(Rest::Tuple),
+            sequence.repeated().map(Rest::Sequence),
+        )))
+        .then_ignore(just(Token::RightParen))
+        .map_with_span(|(first, rest), span| match rest {
+            Rest::Tuple(others) => UntypedExpr::Tuple {
+                location: span,
+                elems: std::iter::once(first).chain(others).collect(),
+            },
+            Rest::Sequence(others) => {
+                let e = others
+                    .into_iter()
+                    .fold(first, |current, next| current.append_in_sequence(next));
+
+                if matches!(e, UntypedExpr::Assignment { .. }) {
+                    UntypedExpr::Sequence {
+                        location: span,
+                        expressions: vec![e],
+                    }
+                } else {
+                    e
+                }
+            }
+        })
+}
+
 #[cfg(test)]
 mod tests {
     use crate::assert_expr;
